@@ -15,6 +15,7 @@ lattice rationals (vh.ratproj) and records.  The one relation compared directly 
 "both engines return bit-identical dictionaries" (two implementation outputs).
 """
 import copy
+import os
 import random
 import warnings
 from fractions import Fraction as Fr
@@ -30,6 +31,9 @@ from ..tlc import cfg
 NEEDS_EXT = True
 
 SENTINEL = -9999.0
+# development aid: VH_C14_STRICT=1 judges under the other reading of the statement (weighted error estimates of a
+# one-member bin constrained to sqrt(1/w) and 0); the registered commands never set it
+STRICT = os.environ.get("VH_C14_STRICT") == "1"
 
 # lattice concretisations: value = (x + off) * unit, weight = w * wunit  (unit, wunit dyadic);
 # the second variable uses the entry three places further on
@@ -41,10 +45,10 @@ CONC = [
 BOUNDS = {
     "quick": dict(MaxLen=3, Vals=set(range(1, 6)), BinSizes={1, 2, 3}, NBinSet={1, 2, 3}, NPerSet={1, 2, 3, 4},
                   MinVals={0, 2}, MaxVals={4}, TMaxLen=3, TVals={1, 2, 4}, TYVals={0, 3}, TWts={1, 4}),
-    "thorough": dict(MaxLen=4, Vals=set(range(1, 7)), BinSizes={1, 2, 3, 5}, NBinSet={1, 2, 3, 4}, NPerSet={1, 2, 3, 4, 5},
-                     MinVals={0, 2, 3}, MaxVals={4, 7}, TMaxLen=4, TVals={1, 2, 4}, TYVals={0, 3}, TWts={1, 2, 4}),
+    "thorough": dict(MaxLen=4, Vals=set(range(1, 6)), BinSizes={1, 2, 3}, NBinSet={1, 2, 3, 4}, NPerSet={1, 2, 3, 4, 5},
+                     MinVals={0, 2}, MaxVals={4, 7}, TMaxLen=4, TVals={1, 2, 4}, TYVals={0, 3}, TWts={1, 4}),
 }
-INVARIANTS = ["MechRefines", "MergeSafe", "ByNumSane", "MomentsSane"]
+INVARIANTS = ["MechRefines", "MergeRefines", "MergeSafe", "ByNumSane", "MomentsSane"]
 ACTIONS = ["ChooseData", "ChooseSpec", "ChooseX", "ChooseYW", "HistPass", "NumPass", "NumConvert", "NumMerge", "NumKeep",
            "CalcStats"]
 
@@ -254,7 +258,7 @@ def signature(p, clause, c):
 def judge(ctx, recs, what, constants=None):
     rejects = tracecheck.validate(ctx, "BinStatsTrace.tla",
                                   [{"id": r["id"], "c": r["c"], "obs": [u["o"] for u in r["runs"]]} for r in recs],
-                                  what=what, constants=constants or {"StrictOneMember": False})
+                                  what=what, constants=constants or {"StrictOneMember": STRICT})
     byid = {r["id"]: r for r in recs}
     for rid, failing in sorted(rejects.items()):
         r = byid[rid]
@@ -312,13 +316,13 @@ def run(ctx):
             cfg_text=cfg(constants=consts, invariants=INVARIANTS), workers=16, require=ACTIONS, timeout=3000)
     # 1b. non-vacuity of MechRefines: deviating mechanisms must violate it
     small = dict(consts, Kinds={"bins"}, MaxLen=3, Vals={1, 2, 3}, BinSizes={2}, NBinSet={2}, NPerSet={2}, MinVals=set(), MaxVals=set())
-    for name, dev in (("pinned one-member whist = datum*weight", {"FixedWhist": False}),
-                      ("merge without the pointer decrement", {"MergeVariant": "nodec"})):
-        rb = ctx.tlc("BinStatsMC.tla", what="self-test: %s violates MechRefines" % name,
-                     cfg_text=cfg(constants=dict(small, **dev), invariants=["MechRefines"]),
+    for name, dev, inv, nxt in (("pinned one-member whist = datum*weight", {"FixedWhist": False}, "MechRefines", "Next"),
+                                ("merge without the pointer decrement", {"MergeVariant": "nodec"}, "MergeRefines", "NextNoStats")):
+        rb = ctx.tlc("BinStatsMC.tla", what="self-test: %s violates %s" % (name, inv),
+                     cfg_text=cfg(constants=dict(small, **dev), invariants=[inv], next_=nxt),
                      workers=2, allow_violation=True, coverage=False)
-        if "MechRefines" not in rb.violated:
-            raise MachineryError("self-test failed: MechRefines not violated by the deviating mechanism (%s)" % name)
+        if inv not in rb.violated:
+            raise MachineryError("self-test failed: %s not violated by the deviating mechanism (%s)" % (inv, name))
     # 2. export every case (spec -> code)
     r2 = ctx.tlc("BinStatsMC.tla", what="export cases",
                  cfg_text=cfg(constants=dict(consts, DoExport=True), next_="NextExport", constraints=["Export"]),
@@ -331,25 +335,35 @@ def run(ctx):
         nmode[cse["mode"]] = nmode.get(cse["mode"], 0) + 1
     if set(nmode) != {"binsize", "nbin", "nperbin"}:
         raise MachineryError("export incomplete: %s" % nmode)
-    recs = pmap(run_case, [(i, cse, i % len(CONC)) for i, cse in enumerate(cases, 1)])
-    for r in recs:
-        ctx.count(r["c"], n=len(r["runs"]))
-    for r in recs[:: max(1, len(recs) // 4)][:4]:
-        ctx.sample({"case": r["c"], "call": r["runs"][-1]["p"], "observed": r["runs"][-1]["o"]})
-    rej1 = judge(ctx, recs, "judge replayed cases (BinStatsTrace)")
+    # replay + judge in chunks (a record carries every projected statistic of every bin: keep memory bounded)
+    census, first = {}, {}
+
+    def batch(jobs, what):
+        chunk = 25000
+        for lo in range(0, len(jobs), chunk):
+            recs = pmap(run_case, jobs[lo:lo + chunk])
+            for r in recs:
+                ctx.count(r["c"], n=len(r["runs"]))
+            rej = judge(ctx, recs, "%s [%d..%d]" % (what, lo + 1, lo + len(recs)))
+            structure_census(recs, census)
+            if not first:
+                first.update(recs=recs[:4000], rej=rej)
+                for r in recs[:: max(1, len(recs) // 4)][:4]:
+                    ctx.sample({"case": r["c"], "call": r["runs"][-1]["p"], "observed": r["runs"][-1]["o"]})
+        return len(jobs)
+
+    nrec = batch([(i, cse, i % len(CONC)) for i, cse in enumerate(cases, 1)], "judge replayed cases (BinStatsTrace)")
     # 3. larger seeded cases (code -> spec)
     nrand, maxlen = (600, 40) if ctx.quick else (12000, 60)
     sc = seeded_cases(random.Random(ctx.seed), nrand, maxlen)
-    rrecs = pmap(run_case, [(len(recs) + 1 + i, cse, (ctx.seed + i) % len(CONC)) for i, cse in enumerate(sc)])
-    for r in rrecs:
-        ctx.count(r["c"], n=len(r["runs"]))
-    judge(ctx, rrecs, "judge seeded larger cases (BinStatsTrace)")
+    nseed = batch([(nrec + 1 + i, cse, (ctx.seed + i) % len(CONC)) for i, cse in enumerate(sc)],
+                  "judge seeded larger cases (BinStatsTrace)")
     # 4. binding self-test and structure census (vacuity guards)
-    selftest(ctx, [r for r in recs if r["id"] not in rej1])
-    census = structure_census(recs + rrecs)
+    selftest(ctx, first["recs"], first["rej"])
     for need in ("empty_bins", "one_member_bins", "multi_member_bins", "merged_last_bins", "short_last_bins", "tied_values",
                  "rejected_no_data"):
-        if not census.get(need):
+        # the census is taken from what the code returned: only meaningful (and only enforced) on a run without violations
+        if not census.get(need) and not ctx.violations:
             raise MachineryError("vacuous run: no case with %s (%s)" % (need, census))
     ctx.rule = ("every data array of length 1..%d over %d lattice values x every bin specification (binsize %s | nbin %s | nperbin %s x "
                 "mergelast on/off) x min in %s or absent x max in %s or absent, with second variable and weights derived from the data; "
@@ -362,7 +376,7 @@ def run(ctx):
                  sorted(B["MaxVals"]), B["TMaxLen"], sorted(B["TVals"]), sorted(B["TYVals"]), sorted(B["TWts"]), len(CONC), nrand, maxlen))
     ctx.exhaustive = True
     ctx.note(bounds={k: sorted(v) if isinstance(v, set) else v for k, v in B.items()}, exported_cases=nmode,
-             records=len(recs), seeded_records=len(rrecs), structure_census=census)
+             records=nrec, seeded_records=nseed, structure_census=census, strict_one_member_reading=STRICT)
     ctx.assumptions = [
         "dyadic lattice: data (x+off)*2^k, weights w*2^j, total weight <= 32; expected values are exact rationals with bounded denominators",
         "real-valued outputs are compared 'to rounding': 16 ulp of the operand scale, by snapping the observed float to the nearest "
@@ -378,8 +392,7 @@ def run(ctx):
     ctx.trusted_base = ctx.trusted_base + ["fractions.Fraction arithmetic and Fraction.limit_denominator in the float->lattice projection"]
 
 
-def structure_census(recs):
-    cen = {}
+def structure_census(recs, cen):
 
     def add(kk, v=1):
         cen[kk] = cen.get(kk, 0) + v
@@ -402,16 +415,17 @@ def structure_census(recs):
     return cen
 
 
-def selftest(ctx, recs):
+def selftest(ctx, recs, rejects):
     """corrupt one recorded field of each kind: exactly the corrupted records must be rejected"""
     saved = ctx.traces
+    failed = {(rid, int(f.split(":", 1)[0]) - 1) for rid, fs in rejects.items() for f in fs}     # observations rejected in this run
 
     def pick(pred):
         for r in recs:
             for ui, u in enumerate(r["runs"]):
-                if u["o"]["err"] == "none" and not u["problems"] and pred(r["c"], u):
+                if u["o"]["err"] == "none" and not u["problems"] and (r["id"], ui) not in failed and pred(r["c"], u):
                     return r, ui
-        raise MachineryError("self-test: no record for a probe")
+        return None
 
     def corrupt_real(fld):
         def f(o):
@@ -428,8 +442,8 @@ def selftest(ctx, recs):
 
     full = lambda c, u: u["p"]["hasy"] and u["p"]["hasw"] and u["o"]["hist"] and u["o"]["hist"][0] >= 2     # noqa
     probes = [
-        ("mean", lambda c, u: full(c, u) and c["mode"] == "binsize", corrupt_real("mean")),
-        ("ystd", lambda c, u: full(c, u) and c["mode"] == "nbin", corrupt_real("yvar")),
+        ("mean", lambda c, u: full(c, u), corrupt_real("mean")),
+        ("ystd", lambda c, u: full(c, u), corrupt_real("yvar")),
         ("werr2", lambda c, u: full(c, u), corrupt_real("werr2")),
         ("whist", lambda c, u: full(c, u), corrupt_real("whist")),
         ("low", lambda c, u: c["mode"] == "binsize" and u["o"]["low"], corrupt_real("low")),
@@ -440,15 +454,25 @@ def selftest(ctx, recs):
     ]
     batch, expect = [], {}
     for n, (name, pred, fn) in enumerate(probes):
-        r, ui = pick(pred)
+        got = pick(pred)
+        if got is None:
+            continue
+        r, ui = got
         good = {"id": 2 * n + 1, "c": r["c"], "obs": [r["runs"][ui]["o"]]}
         bad = copy.deepcopy(good)
         bad["id"] = 2 * n + 2
         fn(bad["obs"][0])
         batch += [good, bad]
         expect[bad["id"]] = name
+    # on a tree with many violations some probes may find no accepted record to corrupt
+    ctx.note(selftest_probes=sorted(expect.values()))
+    if len(expect) < 5:
+        if not ctx.violations:
+            raise MachineryError("self-test: only %d of %d probes found a record" % (len(expect), len(probes)))
+        if not expect:
+            return           # a tree on which (nearly) every observation is already rejected
     rej = tracecheck.validate(ctx, "BinStatsTrace.tla", batch, what="self-test: corrupted records rejected", workers=1,
-                              constants={"StrictOneMember": False})
+                              constants={"StrictOneMember": STRICT})
     ctx.traces = saved
     bad_accept = set(expect) - set(rej)
     good_reject = set(rej) - set(expect)
